@@ -1,16 +1,20 @@
-import sys, os, glob, importlib, traceback
+"""MANIFEST.setup_cmd: regenerate every Gen/*.v from /repo (one fresh interpreter per property module: several translators
+need their own environment set before ofxtools is imported), then a full .vo build of the whole development."""
+import sys, os, glob, subprocess
 sys.path.insert(0, os.path.dirname(os.path.dirname(os.path.abspath(__file__))))
 from ofxv import common as C
-C.use_repo()
 with C.build_lock():
     for p in sorted(glob.glob(os.path.join(C.VERIF, "tools/ofxv/props/c[0-9][0-9].py"))):
         name = os.path.basename(p)[:-3]
-        try:
-            importlib.import_module("ofxv.props." + name).translate()
-        except Exception:
-            traceback.print_exc()
+        code = ("import sys; sys.path.insert(0, %r); from ofxv import common as C; C.use_repo(); import importlib; "
+                "importlib.import_module('ofxv.props.%s').translate()" % (os.path.join(C.VERIF, "tools"), name))
+        r = subprocess.run([C.PY, "-c", code], cwd=C.VERIF, env=dict(os.environ, PYTHONHASHSEED="0", PYTHONDONTWRITEBYTECODE="1"),
+                           stdout=subprocess.PIPE, stderr=subprocess.STDOUT, text=True, timeout=600)
+        if r.returncode:
+            print("translate %s failed:\n%s" % (name, r.stdout[-1500:]))
     C.regen_coqproject()
     rc, out = C.sh(["timeout", "3000", "make", "-f", "Makefile.coq", "-k", "-j%d" % C.NCPU], cwd=C.COQ, timeout=3100)
-    print(out[-4000:])
+    errs = [l for l in out.splitlines() if "Error" in l or l.startswith("make") and "***" in l]
+    print("\n".join(errs[-40:]) if errs else "build complete: no errors")
     # a broken proof is reported by the checks, not by setup
     sys.exit(0)
